@@ -89,4 +89,114 @@ def QueryRes.failed (q : QueryRes) : Bool := q.callErr.isSome || q.rowsErr.isSom
 /-- one statement of a pipeline as the error it contributes (`TxF.stmt` runs it only while `db.Error == nil`) -/
 def stmtErr (mode : ScanMode) (q : QueryRes) : Option String := queryStmt mode none q
 
+/-! ## WHERE a write runs: the enclosing context (round 4)
+
+  Transcribed:
+    * finisher_api.go `DB.CreateInBatches` (regenerated text `Gen.createInBatchesSrc`, wrapping decision
+      `Gen.cibWrapDecision`):
+        `if tx.SkipDefaultTransaction || reflectLen <= batchSize { callFc(tx.Session(&Session{})) }
+         else { tx.Transaction(callFc) }`                                     – `createInBatches`
+      and `callFc`: one create pipeline per batch, `return subtx.Error` at the first failing batch – `runBatches`;
+    * finisher_api.go `DB.Create`: `if db.CreateBatchSize > 0 { return db.CreateInBatches(value, db.CreateBatchSize) }`
+      (`Gen.createDelegation`)                                                 – `createFin`;
+    * finisher_api.go `DB.Transaction` (`Gen.transactionSrc`, `Gen.txBlockCalls`): on a handle whose pool is a
+      TxCommitter a SAVEPOINT / ROLLBACK TO SAVEPOINT pair unless `DisableNestedTransaction`, otherwise
+      BEGIN … COMMIT | ROLLBACK                                                – `blockWrap`, `under`;
+    * callbacks/transaction.go `BeginTransaction` / `CommitOrRollbackTransaction` as seen by the data: an implicit
+      transaction unless `SkipDefaultTransaction` or the pool cannot begin (`ErrInvalidTransaction` is ignored: the
+      write then runs unprotected inside the caller's transaction)             – `implicitWrap`, `pipeline`.
+  The data is abstracted to the list of rows the connection of the write sees (`View.rows`): a statement that succeeds
+  appends its row, a statement the database refuses appends nothing (statement atomicity), `applied` = the statement
+  took effect and was then reported as failed (connection lost while the answer travelled back).
+  Tied to the real code by the regenerated facts above and differentially by the harness suite `encl-batches`
+  (real CreateInBatches / Create-with-batch-size on SQLite in every context, trace and visible rows vs this model). -/
+
+/-- the handle a write is issued on -/
+structure Ctx where
+  inTx : Bool            -- `Statement.ConnPool` is a TxCommitter: Transaction block, after Begin, nested block, hook tx
+  skipDefault : Bool     -- SkipDefaultTransaction
+  disableNested : Bool   -- DisableNestedTransaction
+deriving Repr, DecidableEq
+
+/-- what the connection of the write sees, the accumulated error and the transaction-control trace -/
+structure View where
+  rows : List Nat
+  err : Option String
+  log : List String      -- "B" "C" "R" "SP" "RT" "S" "S!"
+deriving Repr, DecidableEq
+
+/-- one writing statement -/
+structure W where
+  row : Nat
+  fail : Option String
+  applied : Bool         -- only meaningful when `fail` is some: the statement took effect nevertheless
+deriving Repr, DecidableEq
+
+inductive Wrap where
+  | none | ownTx | savepoint
+deriving Repr, DecidableEq
+
+/-- callbacks/transaction.go: the protection ONE pipeline run gives itself -/
+def implicitWrap (c : Ctx) : Wrap :=
+  if c.skipDefault then .none else if c.inTx then .none else .ownTx
+
+/-- finisher_api.go `Transaction`: the protection a block gets -/
+def blockWrap (c : Ctx) : Wrap :=
+  if c.inTx then (if c.disableNested then .none else .savepoint) else .ownTx
+
+/-- the guarded statements of a pipeline: each runs only while `db.Error == nil` -/
+def runStmts : View → List W → View
+  | v, [] => v
+  | v, w :: ws =>
+    match v.err with
+    | some _ => v
+    | none =>
+      match w.fail with
+      | none => runStmts { v with rows := v.rows ++ [w.row], log := v.log ++ ["S"] } ws
+      | some e => runStmts { v with rows := if w.applied then v.rows ++ [w.row] else v.rows, err := some e,
+                                    log := v.log ++ ["S!"] } ws
+
+/-- a body under a wrapper: the wrapper restores the rows it saw at its start when the body ends with an error -/
+def under (wr : Wrap) (v : View) (body : View → View) : View :=
+  match wr with
+  | .none => body v
+  | .ownTx =>
+    let r := body { v with log := v.log ++ ["B"] }
+    match r.err with
+    | some _ => { r with rows := v.rows, log := r.log ++ ["R"] }
+    | none => { r with log := r.log ++ ["C"] }
+  | .savepoint =>
+    let r := body { v with log := v.log ++ ["SP"] }
+    match r.err with
+    | some _ => { r with rows := v.rows, log := r.log ++ ["RT"] }
+    | none => r
+
+/-- one run of a write pipeline (Create / Update / Delete with everything it triggers) in context `c` -/
+def pipeline (c : Ctx) (v : View) (ws : List W) : View :=
+  under (implicitWrap c) v (fun v' => runStmts v' ws)
+
+/-- `callFc`: the batches in order, stopping at the first one that ends with an error -/
+def runBatches (c : Ctx) : View → List (List W) → View
+  | v, [] => v
+  | v, b :: bs =>
+    let r := pipeline c v b
+    match r.err with
+    | some _ => r
+    | none => runBatches c r bs
+
+/-- finisher_api.go `CreateInBatches` -/
+def createInBatches (c : Ctx) (len batch : Nat) (v : View) (bs : List (List W)) : View :=
+  if c.skipDefault || len ≤ batch then runBatches c v bs
+  else under (blockWrap c) v (fun v' => runBatches { c with inTx := true } v' bs)
+
+/-- finisher_api.go `Create` (`createBatchSize` = 0: not set) -/
+def createFin (c : Ctx) (createBatchSize len : Nat) (v : View) (bs : List (List W)) : View :=
+  if createBatchSize > 0 then createInBatches c len createBatchSize v bs
+  else pipeline c v bs.flatten
+
+/-- the write is protected as a whole: default transaction on, and either not inside a caller's transaction or
+    (several batches and SAVEPOINTs allowed) -/
+def Ctx.protects (c : Ctx) (len batch : Nat) : Bool :=
+  !c.skipDefault && (!c.inTx || (decide (batch < len) && !c.disableNested))
+
 end Gorm.Stg
